@@ -1,3 +1,6 @@
-/- helper lemmas for Props/C16 -/
+/- helper lemmas for Props/C16 (see C16Basic, C16Bin, C16Misc) -/
 import MiVerif.Gen.Arith
 import MiVerif.Gen.Tables
+import MiVerif.Lemmas.C16Basic
+import MiVerif.Lemmas.C16Bin
+import MiVerif.Lemmas.C16Misc
